@@ -132,6 +132,10 @@ def accept_variant(kind, key_b64):
         return "{" + good + "}"
     if kind == "format_field":
         return "{0}{}%s"
+    if kind.startswith("suffix:"):      # the digest followed / preceded by the given bytes (hex), e.g. UTF-8 of U+00A0
+        return good + bytes.fromhex(kind[7:]).decode("latin-1")
+    if kind.startswith("prefix:"):
+        return bytes.fromhex(kind[7:]).decode("latin-1") + good
     if kind.startswith("lit:"):
         return kind[4:]
     raise HttpError("unknown accept kind %r" % kind)
